@@ -165,7 +165,8 @@ def _replay_file(a, repo):
     if rp["clause"].startswith("deadlock") or rp["clause"] == "longer":
       bad = rep["status"] in ("blocked", "hang"); what = rep.get("detail", "")[:300]
     else:
-      probs = _real_trace_ok(rep, run); bad = bool(probs) and rep["status"] == "ok"; what = "; ".join(probs)
+      probs = _real_trace_ok(rep, run); raised = [x for x in (rep.get("c2_exc"), rep.get("main_exc")) if x]
+      bad = bool(probs) and (rep["status"] == "ok" or bool(raised)); what = "; ".join(probs + raised)
     print("replay %s: status=%s %s" % (a.replay, rep["status"], what))
   if bad:
     print("VIOLATION property=C17 replay=%s" % a.replay); return 1
@@ -278,7 +279,10 @@ def main(a, seed):
             bad = _real_trace_ok(rep, run)
             # a trace violation counts only when the real classes followed the model's schedule to its end; a replay
             # that strays from the schedule is a model/implementation mismatch (engine error), not a finding
-            confirmed = bool(bad) and rep["status"] == "ok"; what = "; ".join(bad)
+            # (an exception escaping from close() itself ends that thread early - that IS the finding, not a mismatch)
+            raised = [x for x in (rep.get("c2_exc"), rep.get("main_exc")) if x]
+            if raised: bad = ["close() raised %s" % "; ".join(raised)] + [b for b in bad if "does not complete" not in b]
+            confirmed = bool(bad) and (rep["status"] == "ok" or bool(raised)); what = "; ".join(bad)
           v = {"harness": "bmc:%s" % r["query"], "clause": r["query"], "cfg": {"P": P, "H": H, "LMAX": LMAX, "K": K},
                "detail": what, "model": {"wait": r["wait"], "L": r["L"], "choices": r["choices"], "targets": r["targets"],
                                          "faults": r.get("faults"), "schedule": r["schedule"]},
